@@ -333,8 +333,15 @@ class JsonSchemaGenerator:
                 # will count options.ignore_required in
                 required.append(name)
             elif self.output:
-                if not field.no_default:
+                if (
+                    not field.no_default
+                    and not options.no_default
+                    and not field.defer_default
+                    and not options.defer_default
+                    and not callable(field.no_output)
+                ):
                     # if field has default, the value is required in the output data
+                    # (unless the default is not populated, deferred, or the value may be hidden)
                     required.append(name)
 
         data.update(properties=properties)
